@@ -339,6 +339,31 @@ def run_property(prop, cfg, tier, seed, scratch, t0):
                         undecided.append(msg)
                     else:
                         assumed.append({'fn': 'kani::' + h['name'], 'contract': h.get('claim', ''), 'why': 'harness not run: ' + h['status']})
+    # ---- xrun: executable small-scope checks of the real compiled crates against reference functions (bounded; concrete counterexamples)
+    xrun_rows = []
+    for xs in cfg.get('xrun', []):
+        if tier == 'quick' and xs.get('tier') == 'thorough':
+            continue
+        import xrun_run
+        xr = xrun_run.run_suite(xs['suite'], scratch, tier)
+        cmds.append(xr['cmd'])
+        xrun_rows.append({k: v for k, v in xr.items() if k != 'failures'})
+        if xr['status'] == 'success':
+            bounded.append({'harness': 'xrun::' + xs['suite'], 'bound': xs.get('bound', ''), 'checks': xr['cases'], 'wall_s': xr.get('wall_s'),
+                            'claim': xs.get('claim', ''), 'kind': 'exhaustive execution of the real code over the stated scope against the reference'})
+        elif xr['status'] == 'failed':
+            for fl in xr['failures'][:3]:
+                label = 'xrun::%s::%s' % (xs['suite'], fl['case'])
+                err = {'message': 'xrun: real code disagrees with the reference: ' + fl.get('clause', ''), 'line': None, 'clause': fl.get('clause', ''),
+                       'sites': [{'text': fl.get('detail', ''), 'line': None, 'label': None}], 'resource': False, 'rendered': json.dumps(fl),
+                       'witness': [{'suite': xs['suite'], 'case': fl['case'], 'detail': fl.get('detail', '')}]}
+                k = match_known(known, prop, 'xrun::%s' % xs['suite'], err) or match_known(known, prop, label, err)
+                if k:
+                    known_hits.append((k, label, err))
+                else:
+                    violations.append((label, err, 'xrun'))
+        else:
+            undecided.append('xrun suite %s: %s' % (xs['suite'], xr['status']))
     # ---- extra python checkers (e.g. asm.yml table)
     for extra in cfg.get('extra', []):
         er = extra(scratch, tier)
@@ -388,7 +413,7 @@ def run_property(prop, cfg, tier, seed, scratch, t0):
     write_evidence(prop, tier, seed, cfg, t0, obligations=obligations, discharged=discharged, cmds=cmds, fn_rows=fn_rows, assumed=assumed,
                    bounded=bounded, rewrites=rewrites, escapes=escapes, std_specs=sorted(set(std_specs)), canaries=(canaries_ok, canaries_bad),
                    samples=samples, violations=violations, known_hits=known_hits, undecided_list=undecided, solver_ms=solver_ms,
-                   unit_infos=unit_infos, kani_rows=kani_rows)
+                   unit_infos=unit_infos, kani_rows=kani_rows + xrun_rows)
     if rc == 0:
         print('OK property=%s tier=%s obligations=%d discharged=%d functions=%d bounded_checks=%d assumed=%d wall=%.1fs' % (
             prop, tier, obligations, discharged, len(fn_rows), len(bounded), len(assumed), wall))
